@@ -14,7 +14,7 @@
 import sys, tempfile
 sys.path.insert(0, "/verif")
 from bounded.b_gsu import one_case
-msg = one_case(tempfile.mkdtemp(), *('dict', 'multi', ('1', '"""a\nb"""'), (), {0: ['7'], 2: ['8']}))
-print(('dict', 'multi', ('1', '"""a\nb"""'), (), {0: ['7'], 2: ['8']}), "->", msg)
+msg = one_case(tempfile.mkdtemp(), *('dict', 'trailing', ('1', '0+2', '"""a\nb"""'), (0, 1), {0: ['7'], 3: ['8']}))
+print(('dict', 'trailing', ('1', '0+2', '"""a\nb"""'), (0, 1), {0: ['7'], 3: ['8']}), "->", msg)
 assert msg is None, msg
 
